@@ -1,5 +1,95 @@
+(* C12 -- DPE numbers behave like the reals they represent: the statements.
+   Model: MPSV.Dpe.DpeModel (rdpe_* / cdpe_* of mt.c, branch by branch, over Flocq binary64 and
+   integer exponents with explicit 64/32-bit wrap).  rval x = B2R (mnt x) * 2^(esp x).
+   The model follows the code as changed by fixes/C12_*.patch; *_old is the code as it was.  *)
+From Coq Require Import ZArith Reals.
+From Flocq Require Import Core BinarySingleNaN.
 Require Import MPSV.Dpe.DpeDefs MPSV.Dpe.DpeModel MPSV.Dpe.DpeProps.
+Open Scope Z_scope.
+
+(* rdpe_Norm returns a normalised value denoting exactly the same real (exponent sum in range) *)
+Theorem C12_norm_exact : forall (m : b64) (e : Z),
+  is_finite m = true -> in_long (e + snd (ffrexp m)) ->
+  normalised (rdpe_norm (Rdpe m e)) /\ rval (rdpe_norm (Rdpe m e)) = rval (Rdpe m e).
+Proof. exact norm_exact. Qed.
+Print Assumptions C12_norm_exact.
+Example C12_norm_exact_nonvacuous :   (* 3.0 = 0.75 * 2^2, stored with exponent 7 *)
+  let m : b64 := of_bits 4613937818241073152 in
+  is_finite m = true /\ in_long (7 + snd (ffrexp m)) /\ esp (rdpe_norm (Rdpe m 7)) = 9.
+Proof. vm_compute. repeat split; intro; discriminate. Qed.
+
+(* conversion from double is exact and normalised, for every finite double *)
+Theorem C12_conv_double : forall d : b64, is_finite d = true ->
+  normalised (rdpe_set_d d) /\ rval (rdpe_set_d d) = B2R d.
+Proof. exact conv_double. Qed.
+Print Assumptions C12_conv_double.
+
+(* the ordering operators (as fixed by fixes/C12_rdpe_compare.patch) agree with the order of the
+   represented reals for ALL normalised operands: zero, positive, negative, any exponents *)
+Theorem C12_order_correct : forall (o : ordop) (x y : rdpe),
+  normalised x -> normalised y -> in_long (esp x) -> in_long (esp y) ->
+  (rdpe_ord o x y = true <->
+   match o with OLt => (rval x < rval y)%R | OLe => (rval x <= rval y)%R
+              | OGt => (rval x > rval y)%R | OGe => (rval x >= rval y)%R end).
+Proof. exact order_correct. Qed.
+Print Assumptions C12_order_correct.
+Example C12_order_correct_nonvacuous :   (* -4 and -1: normalised, both negative, different exponents *)
+  normalised (Rdpe fmhalf 3) /\ normalised (Rdpe fmhalf 1) /\ in_long 3 /\ in_long 1 /\
+  rdpe_lt (Rdpe fmhalf 3) (Rdpe fmhalf 1) = true /\ rdpe_lt (Rdpe fhalf 1) (Rdpe fmhalf 1) = false.
+Proof.
+  split. apply normalised_mhalf. split. apply normalised_mhalf.
+  vm_compute. repeat split; intro; discriminate.
+Qed.
+
+(* ... and the operators as they were are wrong: 1 < -1 is true, -4 < -1 is false *)
 Theorem C12_order_unfixed_refuted :
   rdpe_lt_old (Rdpe fhalf 1) (Rdpe fmhalf 1) = true /\ rdpe_lt_old (Rdpe fmhalf 3) (Rdpe fmhalf 1) = false.
 Proof. exact order_unfixed_refuted. Qed.
 Print Assumptions C12_order_unfixed_refuted.
+
+(* rdpe_cmp through the wrapping exponent distance: RDPE_MAX compares below RDPE_MIN; fixed by
+   fixes/C12_rdpe_add_delta_overflow.patch *)
+Theorem C12_cmp_unfixed_refuted :
+  rdpe_cmp_old (Rdpe fhalf LONG_MAX) (Rdpe fhalf LONG_MIN) = -1 /\
+  rdpe_cmp (Rdpe fhalf LONG_MAX) (Rdpe fhalf LONG_MIN) = 1.
+Proof. exact cmp_unfixed_refuted. Qed.
+Print Assumptions C12_cmp_unfixed_refuted.
+
+(* relative error <= 2^-53 (one ulp) and normalised result, exponents in range *)
+Theorem C12_mul_rel : forall x y, normalised x -> normalised y -> nonzero x -> nonzero y ->
+  LONG_MIN + 1 <= esp x + esp y <= LONG_MAX - 2 ->
+  normalised (rdpe_mul x y) /\
+  (Rabs (rval (rdpe_mul x y) - rval x * rval y) <= bpow radix2 (-53) * Rabs (rval x * rval y))%R.
+Proof. exact mul_rel. Qed.
+Print Assumptions C12_mul_rel.
+
+Theorem C12_sqr_rel : forall x, normalised x -> nonzero x ->
+  LONG_MIN + 1 <= esp x + esp x <= LONG_MAX - 2 ->
+  normalised (rdpe_sqr x) /\
+  (Rabs (rval (rdpe_sqr x) - rval x * rval x) <= bpow radix2 (-53) * Rabs (rval x * rval x))%R.
+Proof. exact sqr_rel. Qed.
+Print Assumptions C12_sqr_rel.
+
+Theorem C12_div_rel : forall x y, normalised x -> normalised y -> nonzero x -> nonzero y ->
+  LONG_MIN + 1 <= esp x - esp y <= LONG_MAX - 2 ->
+  normalised (rdpe_div x y) /\
+  (Rabs (rval (rdpe_div x y) - rval x / rval y) <= bpow radix2 (-53) * Rabs (rval x / rval y))%R.
+Proof. exact div_rel. Qed.
+Print Assumptions C12_div_rel.
+Example C12_rel_nonvacuous :
+  normalised (Rdpe fhalf 5) /\ nonzero (Rdpe fhalf 5) /\ LONG_MIN + 1 <= 5 + 5 <= LONG_MAX - 2.
+Proof. split. apply normalised_half. split. apply nonzero_half. vm_compute. split; intro; discriminate. Qed.
+
+(* "saturating instead of wrapping on exponent overflow" is FALSE for the code: witnesses with
+   normalised in-range operands (each is replayed on the real functions by checks/C12.py) *)
+Theorem C12_saturates_refuted :
+  (esp (rdpe_sqr (Rdpe fhalf two62)) = LONG_MAX /\ to_bits (mnt (rdpe_sqr (Rdpe fhalf two62))) = to_bits fhalf /\
+   esp (rdpe_sqr (Rdpe fhalf (two62 + 1))) = LONG_MIN + 1) /\
+  esp (rdpe_sqrt RDPE_MAX) = - two62 /\
+  esp (rdpe_inv (Rdpe fhalf LONG_MIN)) = LONG_MIN + 2 /\
+  (esp (rdpe_mul_old (Rdpe fhalf LONG_MIN) (Rdpe fhalf (-1))) = LONG_MAX /\
+   to_bits (mnt (rdpe_mul_old (Rdpe fhalf LONG_MIN) (Rdpe fhalf (-1)))) = to_bits fhalf) /\
+  to_bits (rdpe_get_d_old (Rdpe fhalf 4294967296)) = to_bits fhalf /\
+  esp (rdpe_mul_2exp (Rdpe fhalf LONG_MAX) 1) = LONG_MIN.
+Proof. exact saturates_refuted. Qed.
+Print Assumptions C12_saturates_refuted.
